@@ -295,6 +295,7 @@ mpn_mul_n (mp_ptr p, mp_srcptr a, mp_srcptr b, mp_size_t n)
       /* Allocate workspace of fixed size on stack: fast! */
       mp_limb_t ws[MPN_KARA_MUL_N_TSIZE (MUL_TOOM3_THRESHOLD_LIMIT-1)];
       ASSERT (MUL_TOOM3_THRESHOLD <= MUL_TOOM3_THRESHOLD_LIMIT);
+      VERIF_EV ("mul.kara_n", n, n, 0, 0);
       mpn_kara_mul_n (p, a, b, n, ws);
     }
   else if (BELOW_THRESHOLD (n, MUL_TOOM4_THRESHOLD))
@@ -303,11 +304,13 @@ mpn_mul_n (mp_ptr p, mp_srcptr a, mp_srcptr b, mp_size_t n)
       TMP_SDECL;
       TMP_SMARK;
       ws = TMP_SALLOC_LIMBS (MPN_TOOM3_MUL_N_TSIZE (n));
+      VERIF_EV ("mul.toom3_n", n, n, 0, 0);
       mpn_toom3_mul_n (p, a, b, n, ws);
       TMP_SFREE;
     }
   else if (BELOW_THRESHOLD (n, MUL_TOOM8H_THRESHOLD))
     {
+       VERIF_EV ("mul.toom4_n", n, n, 0, 0);
        mpn_toom4_mul_n (p, a, b, n);
     }
 #if WANT_FFT || TUNE_PROGRAM_BUILD
@@ -355,6 +358,7 @@ mpn_sqr (mp_ptr p, mp_srcptr a, mp_size_t n)
       /* Allocate workspace of fixed size on stack: fast! */
       mp_limb_t ws[MPN_KARA_SQR_N_TSIZE (SQR_TOOM3_THRESHOLD_LIMIT-1)];
       ASSERT (SQR_TOOM3_THRESHOLD <= SQR_TOOM3_THRESHOLD_LIMIT);
+      VERIF_EV ("mul.sqr_kara", n, n, 0, 0);
       mpn_kara_sqr_n (p, a, n, ws);
     }
   else if (BELOW_THRESHOLD (n, SQR_TOOM4_THRESHOLD))
@@ -363,6 +367,7 @@ mpn_sqr (mp_ptr p, mp_srcptr a, mp_size_t n)
       TMP_SDECL;
       TMP_SMARK;
       ws = TMP_SALLOC_LIMBS (MPN_TOOM3_SQR_N_TSIZE (n));
+      VERIF_EV ("mul.sqr_toom3", n, n, 0, 0);
       mpn_toom3_sqr_n (p, a, n, ws);
       TMP_SFREE;
     }
